@@ -35,6 +35,8 @@ func pathScenario(id string, pc *pathCell, foreign string) *Scenario {
 	switch c.Dir {
 	case "rel":
 		k.Dir = sp("relsnaps")
+	case "dotrel": // same directory, spelled with a leading "./" (seeded change R6-C11-B)
+		k.Dir = sp("./relsnaps")
 	case "nested":
 		k.Dir = sp("nested/rel/dir")
 	case "abs":
